@@ -991,12 +991,14 @@ func opReferenceChangeJournal(ctx context.Context, pc *uint64, interpreter *EVMI
 		stateBytes = unmask(rawState[:], length)
 		stateBytes = stateBytes[:length]
 	} else {
-		referenceSlot := new(uint256.Int).SetBytes(keccak(interpreter, storageSlot.Bytes()))
+		slotKey := storageSlot.Bytes32()
+		referenceSlot := new(uint256.Int).SetBytes(keccak(interpreter, slotKey[:]))
 		for i := uint64(0); i < u64Ceiling(length, 32); i++ {
-			offset := referenceSlot.Add(referenceSlot, one).Bytes32()
-			currentRawState := interpreter.evm.StateDB.GetState(contract, offset)
+			currentRawState := interpreter.evm.StateDB.GetState(contract, referenceSlot.Bytes32())
 			stateBytes = append(stateBytes, currentRawState[:]...)
+			referenceSlot.Add(referenceSlot, one)
 		}
+		stateBytes = stateBytes[:length]
 	}
 
 	err = interpreter.tracer.SaveStateChange(contract, &storageSlot, nil, typeId.Bytes32(), stateBytes)
